@@ -14,7 +14,7 @@ class Outcome:
         self.prop = prop
         self.trace = None
         self.swarm = None
-        self.log = kernel.EventLog(keep=False)
+        self.log = kernel.EventLog(keep=bool(__import__('os').environ.get('VERIF_KEEP_LOG')))
         self.evals = 0
         self.stats = collections.Counter()
         self.sigs = set()  # hashes of distinct non-trivial cases
@@ -50,6 +50,7 @@ class Outcome:
             "violations": self.violations,
             "sim_s": self.sim_s,
             "sample": self.sample,
+            "log_lines": self.log.lines,
         }
 
 
